@@ -34,6 +34,7 @@ THEOREMS = [
     'CpProofs.C03.imageMap_iff',
     'CpProofs.C03.not_imageMap_of_withEq',
     'CpProofs.C03.C03_handle_cases',
+    'CpProofs.C03.C03_status_only_404_400',
     'CpProofs.C03.C03_request_roundtrip',
     'CpProofs.C03.C03_request_roundtrip_query_only',
     # the load-bearing lemmas
@@ -46,6 +47,8 @@ THEOREMS = [
     'CpProofs.C03.lookup_mergeBody',
     'CpProofs.C03.utf8_rt',
     'CpProofs.C03.latin1_rt',
+    'CpProofs.C03.ascii_rt',
+    'CpProofs.C03.utf16le_rt',
     'CpProofs.C03.recodeQS_utf8',
     'CpProofs.C03.attemptCharsets_declared',
     # tables regenerated from the live modules
@@ -62,22 +65,23 @@ LEVEL_TEXT = ('Proved in Lean over the transcribed decoders, for every list of (
               'repeats, empty keys/values), every per-character (query) / per-byte (body) encoding style (literal, + for '
               'space, %XY with free hex case per digit; only % + & ; = must be escaped), every mix of & and ; with empty '
               'segments, blank values with or without =, every split between query string and body, every codec with a '
-              "round-trip law (UTF-8 = core Lean's verified codec, Latin-1 on code points <= 255) placed behind any failing "
+              "round-trip law (UTF-8 = core Lean's verified codec, Latin-1 <= 255, US-ASCII <= 127, for bodies also UTF-16-LE "
+              'and UTF-16 with BOM, each with a proved round trip) placed behind any failing '
               'attempts: the handler is called and each key carries exactly the values sent, query-string values before body '
               'values, in wire order, scalar for one and flat list for several (C03_request_roundtrip, C03_qs_roundtrip, '
               'C03_body_roundtrip, C03_merge); only an exact N,M (1-18 digits) is image-map coordinates (imageMap_iff); the '
               'response is 404 iff the query string does not decode, 400 iff it does and no attempted charset decodes every '
               'key and value of the body, and an accepted body was decoded by one single charset as a whole '
-              '(C03_handle_cases, C03_all_or_nothing_*). Partial: the UTF-16 family and ASCII decoders and malformed escapes '
-              'are modelled and compared with the real code (exhaustively on small scopes) but have no round-trip theorem; '
-              'query_string_encoding is proved for ASCII-compatible codecs only.')
+              '(C03_handle_cases, C03_all_or_nothing_*). Partial: UTF-16-BE, malformed escapes, raw non-UTF-8 query bytes '
+              'and declared-but-wrong charsets are modelled and compared with the real code (exhaustively on small scopes) '
+              'but have no round-trip theorem; query_string_encoding is proved for ASCII-compatible codecs only.')
 LEVEL_NOTE = ('Trusted: Lean kernel (axioms propext, Classical.choice, Quot.sound only); the hand model '
               'lean/CpModel/UrlEnc.lean as validated on every run against cherrypy through a **kwargs handler (whole '
-              'requests), the anchored units, every %X/%XY item and exhaustive small strings; CPython codecs other than '
-              'UTF-8/Latin-1; the harness and its wire-level oracle (cross-checked with urllib.parse.parse_qsl).')
+              'requests), the anchored units, every %X/%XY item and exhaustive small strings; that the hand-written Latin-1/'
+              'ASCII/UTF-16 decoders equal CPython codecs (differential only); the harness and its wire-level oracle (cross-checked with urllib.parse.parse_qsl).')
 TRUSTED_BASE = [
-    'charset codecs other than UTF-8 / Latin-1 (UTF-16 family, ASCII) are hand-written decoders validated only by the '
-    'differential `dec` stream against CPython codecs',
+    'the Latin-1 / ASCII / UTF-16 decoders are hand-written (round trips proved against hand-written encoders); that '
+    'they are what CPython codecs do is validated by the differential `dec` stream only; UTF-8 is core Lean\'s',
     'CPython semantics of str.split / bytes.split / int(x, 16) / re.fullmatch as transcribed in CpModel/UrlEnc.lean',
 ]
 ASSUMPTIONS = [
